@@ -131,7 +131,7 @@ pub fn c03() -> SchedCampaign {
         ],
         profiles: ProfileWeights {
             focus_classes: &[Class::ExecStart, Class::Commit, Class::Dep, Class::Abort],
-            directors: obs::D_COMMIT_HEAD | obs::D_COORD | obs::D_EXEC_PUBLISH,
+            directors: obs::D_COMMIT_HEAD | obs::D_COORD | obs::D_EXEC_PUBLISH | obs::D_FINISH_AT_HEAD,
             ..ProfileWeights::default()
         },
         seq_pct: 10,
